@@ -26,7 +26,7 @@ CONES = {
     "C09": {"tool", "mocc", "ops", "sto"},
     "C10": {"mout", "tout", "mocc", "tocc", "mstate", "tstate"},
     "C11": {"offers", "tocc", "outcome", "events"},
-    "C12": {"now", "mocc", "tocc", "ops"},
+    "C12": {"now", "mocc", "tocc", "ops", "middleware"},   # which time machine the middleware picks is part of C12
     "C18": {"offers", "now", "outcome", "env", "middleware"},
     "C20": {"outcome", "sto"},
 }
